@@ -112,6 +112,13 @@ def run(ctx, factor):
     maxlen = 6 if ctx.tier == "quick" else 10
     for _ in range(ctx.budget(40, 1500) * factor):
         seq = [g.r.randrange(len(ops)) for _ in range(g.int(2, maxlen))]
+        if g.chance(0.4):
+            # an operation, then one that FAILS (possibly after having written part of its configuration), then the first
+            # one again - or another one with the same configuration: a rejected rule must leave nothing behind
+            failing = [j for j, r in enumerate(ref) if r[0] != "ok"]
+            i0 = g.r.randrange(len(ops))
+            same_cfg = [j for j, o in enumerate(ops) if json.dumps(o["doc"].get("config")) == json.dumps(ops[i0]["doc"].get("config"))]
+            seq = seq[:g.int(0, 2)] + [i0, g.pick(failing), g.pick(same_cfg)]
         ctx.driver.call({"op": "reset"})
         # in half of the histories every operation reads its rule (and listing) from the SAME path, rewritten each time:
         # a result remembered per path would then show up as a dependence on the history
